@@ -464,6 +464,6 @@ def scan(ctx: RuleCtx) -> None:
                     ctx.violation(m, s.qual, s.node if not isinstance(s.node, (ast.Attribute, ast.Subscript)) else f'{norm(s.node)} = ...',
                                   f'{s.note} into OptionStore.augments outside options.py: the value is stored without validate_value '
                                   f'(only {sorted(q for _, q in JUSTIFIED)} is justified)', s.node)
-    ctx.floor('.value store sites examined outside options.py', nvalue, 40)
+    ctx.note(f'.value store sites examined outside options.py: {nvalue}')   # no floor: these sites live in files this property does not anchor
     ctx.note(f'justified augments writers seen: {justified_seen}')
     ctx.note(f'scanned {len(files)} files; option types {sorted(uni.types)}; option-returning functions {len(uni.api)}; store attributes {sorted(uni.store_attrs)}')
